@@ -10,7 +10,7 @@ Open Scope Z_scope.
 
 (* apply_to_file: every handler seeks where the model says *)
 Lemma ap_interp_correct c pos0 o :
-  ap_interp expected_seek_sites (lenZ c) pos0 o expected_apply_to_file
+  ap_interp expected_seek_sites (lenZ c) pos0 o [expected_apply_try]
   = position_of c o.
 Proof.
   destruct o; cbn; rewrite ?Z.add_0_r; reflexivity.
